@@ -310,7 +310,7 @@ func PickRecipe(r *runner.Rand) string {
 			return 96 + r.Intn(37) // 96..132
 		case roll < 85:
 			return 1<<14 - 34 + r.Intn(39) // 16350..16388
-		case roll < 90:
+		case roll < 87: // 2 MiB configurations: few
 			return 1<<21 - 34 + r.Intn(38) // 2097118..2097155
 		}
 		return []int{0, 1, 2, 5, 50}[r.Intn(5)]
@@ -431,9 +431,9 @@ func FromRecipe(c *runner.Ctx, recipe string) []Struct {
 		if n < 0 || n > 4<<20 || url < 0 || url > 255 {
 			return nil
 		}
-		class := "esds descriptor-size sweep"
+		class := "descriptor-size sweep"
 		if flags != 0 {
-			class = "esds ES_Descriptor flags"
+			class = "ES_Descriptor flags"
 		}
 		// CreateEsdsBox, then the public fields of the embedded ES_Descriptor
 		mkEsds := func() *mp4.EsdsBox {
@@ -489,7 +489,7 @@ func FromRecipe(c *runner.Ctx, recipe string) []Struct {
 		default:
 			return out
 		}
-		return append(out, Struct{Kind: "api/" + typ + "[" + class + "]", Recipe: recipe, Desc: recipe, New: func() Encodable {
+		return append(out, Struct{Kind: "api/" + typ + "[esds " + class + "]", Recipe: recipe, Desc: recipe, New: func() Encodable {
 			var x Encodable
 			if pi := c.Guard(func() { x = outer() }); pi != nil {
 				return nil
